@@ -666,6 +666,44 @@ pub fn add_all(enc: &mut dyn DynEnc, shards: &[Vec<u8>], shifty: Option<u64>) ->
     Ok(())
 }
 
+/// the values an error carries
+pub fn err_fields(e: &Error) -> Vec<usize> {
+    match *e {
+        Error::DifferentShardSize { shard_bytes, got } => vec![shard_bytes, got],
+        Error::DuplicateOriginalShardIndex { index } => vec![index],
+        Error::DuplicateRecoveryShardIndex { index } => vec![index],
+        Error::InvalidOriginalShardIndex { original_count, index } => vec![original_count, index],
+        Error::InvalidRecoveryShardIndex { recovery_count, index } => vec![recovery_count, index],
+        Error::InvalidShardSize { shard_bytes } => vec![shard_bytes],
+        Error::NotEnoughShards { original_count, original_received_count, recovery_received_count } => {
+            vec![original_count, original_received_count, recovery_received_count]
+        }
+        Error::TooFewOriginalShards { original_count, original_received_count } => vec![original_count, original_received_count],
+        Error::TooManyOriginalShards { original_count } => vec![original_count],
+        Error::UnsupportedShardCount { original_count, recovery_count } => vec![original_count, recovery_count],
+    }
+}
+
+/// Does the Display text of the error mention every value it carries (as
+/// often as it carries it)? The wording is free.
+pub fn display_mentions_fields(e: &Error) -> bool {
+    let text = e.to_string();
+    let mut numbers: Vec<usize> = text
+        .split(|c: char| !c.is_ascii_digit())
+        .filter(|t| !t.is_empty())
+        .filter_map(|t| t.parse().ok())
+        .collect();
+    for f in err_fields(e) {
+        match numbers.iter().position(|n| *n == f) {
+            Some(i) => {
+                numbers.swap_remove(i);
+            }
+            None => return false,
+        }
+    }
+    true
+}
+
 pub fn err_name(e: &Error) -> &'static str {
     match e {
         Error::DifferentShardSize { .. } => "DifferentShardSize",
